@@ -8,7 +8,9 @@
 #include <amgcl/mpi/util.hpp>
 #include <amgcl/mpi/distributed_matrix.hpp>
 #include <amgcl/mpi/inner_product.hpp>
+#include <amgcl/value_type/complex.hpp>
 #include <cstring>
+#include <complex>
 #include "vf.hpp"
 #include "mk.hpp"
 #ifndef C11_REAL_MPI
@@ -41,6 +43,7 @@ struct Out {
     std::vector<std::string> err;               // structural errors seen by ranks
     std::vector<double> y, r;                   // spmv / residual (by global row)
     std::vector<double> ip, gersh, power;       // per rank scalars
+    std::vector<std::complex<double>> ipc;      // complex inner product per rank
     std::vector<long> grows, gcols, gnnz;
     std::vector<std::string> rr;                // remote_rows verdict per rank
     std::vector<std::string> exc;
@@ -157,6 +160,10 @@ static void rank_body(int rank, const Case &cs, Out &o) {
             for (int i = 0; i < nr; ++i) { u[i] = 1 + (rb + i) % 4; w[i] = 3 - (rb + i) % 5; }
             mpi::inner_product ip(comm);
             o.ip[rank] = ip(u, w);
+            // complex vectors (Gaussian integers): conjugate-linear in the second argument, like the serial inner product
+            backend::numa_vector<std::complex<double>> uc(nr), wc(nr);
+            for (int i = 0; i < nr; ++i) { uc[i] = std::complex<double>(1 + (rb + i) % 4, 2 - (rb + i) % 3); wc[i] = std::complex<double>(3 - (rb + i) % 5, 1 + (rb + i) % 2); }
+            o.ipc[rank] = ip(uc, wc);
         }
 #ifndef C11_REAL_MPI
     } catch (const vs::Deadlock &) { throw; }
@@ -169,7 +176,7 @@ static void rank_body(int rank, const Case &cs, Out &o) {
 static Out fresh_out(const Case &cs) {
     int k = cs.rp.k();
     Out o; o.K = mk::Dense<double>(cs.m, cs.n); o.T2 = mk::Dense<double>(cs.n, cs.m); o.T = mk::Dense<double>(cs.n, cs.m); o.AAt = mk::Dense<double>(cs.m, cs.m); o.AtA = mk::Dense<double>(cs.n, cs.n); o.S = mk::Dense<double>(cs.m, cs.n); o.Cp = mk::Dense<double>(cs.m, cs.n);
-    o.y.assign(cs.m, 0); o.r.assign(cs.m, 0); o.ip.assign(k, 0); o.gersh.assign(k, 0); o.power.assign(k, 0);
+    o.y.assign(cs.m, 0); o.r.assign(cs.m, 0); o.ip.assign(k, 0); o.ipc.assign(k, std::complex<double>(0, 0)); o.gersh.assign(k, 0); o.power.assign(k, 0);
     o.grows.assign(k, -1); o.gcols.assign(k, -1); o.gnnz.assign(k, -1); o.rr.assign(k, "not run"); o.exc.assign(k, "");
     return o;
 }
@@ -186,6 +193,7 @@ static uint64_t rank_digest(int rank, const Case &cs, const Out &o) {
     };
     rows(o.K, rb, re); rows(o.T2, cb, ce); rows(o.T, cb, ce); rows(o.AAt, rb, re); rows(o.AtA, cb, ce); rows(o.S, rb, re); rows(o.Cp, rb, re);
     for (int i = rb; i < re; ++i) { uint64_t b1, b2; std::memcpy(&b1, &o.y[i], 8); std::memcpy(&b2, &o.r[i], 8); h = vf::hmix(h, b1); h = vf::hmix(h, b2); }
+    { uint64_t b; double re = o.ipc[rank].real(), im = o.ipc[rank].imag(); std::memcpy(&b, &re, 8); h = vf::hmix(h, b); std::memcpy(&b, &im, 8); h = vf::hmix(h, b); }
     { uint64_t b; std::memcpy(&b, &o.ip[rank], 8); h = vf::hmix(h, b); std::memcpy(&b, &o.gersh[rank], 8); h = vf::hmix(h, b); }
     h = vf::hmix(h, (uint64_t)o.grows[rank]); h = vf::hmix(h, (uint64_t)o.gcols[rank]); h = vf::hmix(h, (uint64_t)o.gnnz[rank]);
     h = vf::hmix(h, vf::hstr(o.rr[rank])); h = vf::hmix(h, vf::hstr(o.exc[rank])); h = vf::hmix(h, (uint64_t)o.err.empty());
